@@ -111,6 +111,7 @@ class FracLoopMixin:
     pass
 
 
+TIME_EPS = Fraction(1, 10**9)  # asyncio adds float delays to the clock: replayed instants carry binary rounding
 LATENCY = Fraction(1, 100)  # timers due within this window of the one being run may share its loop iteration
 
 
@@ -542,14 +543,14 @@ def oracle_c07(env, cfg, obs):
         limit = env.min_(c["T"], 20)
         if cfg.get("latency"):
             limit = limit + LATENCY  # a timer that shares a late loop iteration fires late by at most the modelled latency
-        env.check(c["t_done"] - c["t_start"] <= limit, "C07:within-timeout")
+        env.check(c["t_done"] - c["t_start"] <= limit + TIME_EPS, "C07:within-timeout")
 
 
     if "dead" in obs:
         r, dt_, nw = obs["dead"]
         env.check(r[0] == "err", "C07:later-call-to-a-silent-device-ends-with-a-protocol-error", info=str(r))
         if dt_ is not None:
-            env.check(dt_ <= (Fraction(3, 10) if env.symbolic else Fraction(0.3)) + (LATENCY if cfg.get("latency") else 0), "C07:later-call-within-its-timeout", info=str(dt_))
+            env.check(dt_ <= Fraction(3, 10) + TIME_EPS + (LATENCY if cfg.get("latency") else 0), "C07:later-call-within-its-timeout", info=str(dt_))
 
 
 def oracle_c08(env, cfg, obs):
